@@ -48,10 +48,11 @@ structure VState where
 def VState.init (item : List (Bytes × Value)) : VState :=
   { item, stack := [], leftOp := .null, rightOp := .nil, curOp := none, err := none, debugErr := none, calls := [] }
 
-/-- a panic unwinds to `Process`; all that survives is what it was and which Stringers had been called -/
+/-- a panic unwinds to `Process`; what survives is what it was, which Stringers had been called and the diagnostic recorded so far -/
 structure PanicInfo where
   p : Panic
   calls : List Nat
+  debug : Option Dbg       -- `visitor.debugErr` when the panic was raised (kept by `Process`, repair D10)
   deriving Repr
 
 abbrev VM := Except PanicInfo
@@ -66,7 +67,7 @@ def visitAttrPath (s : VState) : List String → VM VState
     match item with
     | .null => .ok { s with leftOp := .null, stack := [] }
     | .obj kvs => .ok { s with leftOp := Value.get kvs (bytesOf k), stack := [] }
-    | _ => .error ⟨.notAMap, s.calls⟩
+    | _ => .error ⟨.notAMap, s.calls, s.debugErr⟩
   | k :: k' :: ks =>
     let item : Value := match s.stack with
       | top :: _ => top                 -- peek
@@ -74,7 +75,7 @@ def visitAttrPath (s : VState) : List String → VM VState
     match item with
     | .null => .ok { s with leftOp := .null, stack := [] }
     | .obj kvs => visitAttrPath { s with stack := Value.get kvs (bytesOf k) :: s.stack } (k' :: ks)
-    | _ => .error ⟨.notAMap, s.calls⟩
+    | _ => .error ⟨.notAMap, s.calls, s.debugErr⟩
 
 /-- `getString` of the visitor: strip the quotes of a STRING token text -/
 def getStringLit (t : String) : Bytes :=
@@ -99,7 +100,7 @@ def visitSubInts (s : VState) : List String → VM VState
       | some v =>
         let s2 := { s1 with rightOp := .ints (l ++ [v]) }
         visitSubInts s2 rest      -- (returns at once when no element is left)
-    | _ => .error ⟨.typeAssert, s.calls⟩
+    | _ => .error ⟨.typeAssert, s.calls, s.debugErr⟩
 
 /-- `VisitSubListOfDoubles` -/
 def visitSubFloats (s : VState) : List String → VM VState
@@ -115,7 +116,7 @@ def visitSubFloats (s : VState) : List String → VM VState
       | some v =>
         let s2 := { s1 with rightOp := .floats (l ++ [v]) }
         visitSubFloats s2 rest      -- (returns at once when no element is left)
-    | _ => .error ⟨.typeAssert, s.calls⟩
+    | _ => .error ⟨.typeAssert, s.calls, s.debugErr⟩
 
 /-- `VisitSubListOfStrings` -/
 def visitSubStrs (s : VState) : List String → VM VState
@@ -128,7 +129,7 @@ def visitSubStrs (s : VState) : List String → VM VState
     | .strs l =>
       let s2 := { s1 with rightOp := .strs (l ++ [getStringLit t]) }
       visitSubStrs s2 rest
-    | _ => .error ⟨.typeAssert, s.calls⟩
+    | _ => .error ⟨.typeAssert, s.calls, s.debugErr⟩
 
 /-- `ctx.Value().Accept(j)`: the literal visitors -/
 def visitLit (s : VState) : Lit → VM VState
@@ -175,10 +176,10 @@ def visitCompare (lower : Bytes → Bytes) (s : VState) (path : List String) (k 
       | none => .ok (false, { s2 with err := some .unknownOp })
       | some op =>
         match s2.curOp with
-        | none => .error ⟨.nilOp, s2.calls⟩
+        | none => .error ⟨.nilOp, s2.calls, s2.debugErr⟩
         | some ok =>
           match apply lower ok op s2.leftOp s2.rightOp with
-          | .panic c => .error ⟨.stringer, s2.calls ++ c⟩
+          | .panic c => .error ⟨.stringer, s2.calls ++ c, s2.debugErr⟩
           | .ok b c => .ok (b, { s2 with rightOp := .nil, calls := s2.calls ++ c })
           | .err e c =>
             let s3 := { s2 with rightOp := .nil, calls := s2.calls ++ c }
@@ -221,7 +222,7 @@ structure ProcOut where
 /-- `Evaluator.Process` on a parsed rule: fresh visitor, `Visit`, `recover()` -/
 def processTree (lower : Bytes → Bytes) (t : Tree) (item : List (Bytes × Value)) : ProcOut :=
   match visit lower t (VState.init item) with
-  | .error p => { verdict := false, err := some (.panic p.p), debug := none, calls := p.calls }
+  | .error p => { verdict := false, err := some (.panic p.p), debug := p.debug, calls := p.calls }
   | .ok (b, s) =>
     match s.err with
     | some e => { verdict := false, err := some e, debug := s.debugErr, calls := s.calls }
